@@ -377,6 +377,29 @@ def _module_params(k1, k2):
             m.x = h.Port(width=p.n)
             return m
         _FLT["MP"], _FLT["UnitUser"] = MP, UnitUser
+    if "FG" not in _FLT:
+        @h.paramclass
+        class Inner:
+            n = h.Param(dtype=int, desc="n", default=1)
+
+        @h.paramclass
+        class FP2:
+            a = h.Param(dtype=int, desc="a", default=1)
+            inner = h.Param(dtype=Inner, desc="inner", default_factory=Inner)
+
+        @h.generator
+        def FacGen(p: FP2) -> h.Module:
+            m = h.Module()
+            m.x = h.Port(width=p.inner.n + p.a)
+            return m
+        _FLT["FG"], _FLT["Inner"], _FLT["FP2"] = FacGen, Inner, FP2
+    FG, Inner, FP2 = _FLT["FG"], _FLT["Inner"], _FLT["FP2"]
+    # fields declared with default_factory take part in equality: n = k1+1 vs n = k2+1; defaults written out or not
+    f1, f2 = FG(a=1, inner=Inner(n=k1 + 1)), FG(FP2(inner=Inner(n=k2 + 1)))
+    if (f1 is f2) != (k1 == k2) or (f1.name == f2.name) != (k1 == k2) or f1.x.width != k1 + 2 or f2.x.width != k2 + 2:
+        return False
+    if FG() is not FG(FP2(a=1, inner=Inner(n=1))):
+        return False
     G = _FLT["UnitUser"]
     a, b = G(unit=units[k1]), G(unit=units[k2])
     env.COUNTS["reached"] += 1
